@@ -10,6 +10,7 @@
   Every conversion is "look the base up in one list, find it in the other".
 -/
 import BioCantor.Spec.LocationCheck
+import BioCantor.Spec.Lift
 namespace BioCantor.Spec
 open BioCantor
 
@@ -186,5 +187,118 @@ def okCI2D (t : TxSpec) (s e : Int) (st : Strand) (a : Option Location) : Bool :
   | some d =>
     if ¬ chromIntervalValid t s e then a.isNone
     else okLocRel (.single (s.toNat, e.toNat) st) (.compound d) true a
+
+/-! ## the same transcript seen from a sequence chunk
+
+  A chunk is a window `w = [w.1, w.2)` of the chromosome on strand `wst`; chunk coordinate `q` is the
+  `q`-th base of the window read on that strand.  The chunk-relative view of a location is its part inside
+  the window, each base expressed in chunk coordinates, in the location's own 5'→3' order. -/
+
+structure Win where
+  w : Blk
+  wst : Strand
+  deriving Repr
+
+/-- a chunk holds at least one base and has a direction -/
+def winOk (W : Win) : Bool := W.wst.isDirectional && decide (W.w.1 < W.w.2)
+
+def inWin (w : Blk) (p : Nat) : Bool := decide (w.1 ≤ p) && decide (p < w.2)
+
+/-- chunk coordinate of chromosome position `p` (for `p` inside the window) -/
+def chunkOf (W : Win) (p : Nat) : Nat := if W.wst = .minus then W.w.2 - 1 - p else p - W.w.1
+
+/-- the bases of `l` that lie in the chunk, in `l`'s 5'→3' order, in chunk coordinates -/
+def chunkBases (l : Loc) (W : Win) : List Nat := ((bases l).filter (inWin W.w)).map (chunkOf W)
+
+def listIdx (L : List Nat) (q : Int) : Option Int :=
+  if q < 0 then none else (idxOf? q.toNat L).map Int.ofNat
+def listAt (L : List Nat) (r : Int) : Option Int :=
+  if r < 0 then none else (L[r.toNat]?).map Int.ofNat
+
+/-- chunk position → index among the in-chunk transcript bases (`chunk_relative_pos_to_transcript`) -/
+def expCR2T (t : TxSpec) (W : Win) (q : Int) : Option Int :=
+  if t.E.strand = .unstranded then none else listIdx (chunkBases t.E W) q
+/-- index among the in-chunk transcript bases → chunk position (`transcript_pos_to_chunk_relative`) -/
+def expT2CR (t : TxSpec) (W : Win) (r : Int) : Option Int :=
+  if t.E.strand = .unstranded then none else listAt (chunkBases t.E W) r
+def expCR2D (t : TxSpec) (W : Win) (q : Int) : Option Int :=
+  t.D.bind (fun d => if d.strand = .unstranded then none else listIdx (chunkBases d W) q)
+def expD2CR (t : TxSpec) (W : Win) (r : Int) : Option Int :=
+  t.D.bind (fun d => if d.strand = .unstranded then none else listAt (chunkBases d W) r)
+
+def okCR2T (t : TxSpec) (W : Win) (q : Int) (a : Option Int) : Bool := a == expCR2T t W q
+def okT2CR (t : TxSpec) (W : Win) (r : Int) (a : Option Int) : Bool := a == expT2CR t W r
+def okCR2D (t : TxSpec) (W : Win) (q : Int) (a : Option Int) : Bool := a == expCR2D t W q
+def okD2CR (t : TxSpec) (W : Win) (r : Int) (a : Option Int) : Bool := a == expD2CR t W r
+
+/-- the location an interval class starts from: one block ⇒ SingleInterval, else CompoundInterval -/
+def initOf (l : Loc) : Location :=
+  match l.blocks with
+  | [b] => .single b l.strand
+  | _ => .compound l
+
+/-- a clipped block in chunk coordinates -/
+def chunkBlk (W : Win) (c : Blk) : Blk :=
+  if W.wst = .minus then (W.w.2 - c.2, W.w.2 - c.1) else (c.1 - W.w.1, c.2 - W.w.1)
+
+/-- the chunk-relative location: the non-empty clips of the blocks by the window, in chunk coordinates, block
+    structure kept, strand relative to the chunk's; the empty location when nothing lies in the window -/
+def chunkLocOf (init : Location) (W : Win) : Location :=
+  match init with
+  | .empty => .empty
+  | .single b st =>
+      match clip W.w b with
+      | some c => .single (chunkBlk W c) (compose st W.wst)
+      | none => .empty
+  | .compound l =>
+      let cs := l.blocks.filterMap (clip W.w)
+      if cs.isEmpty then .empty
+      else .compound ⟨sortBlocks (compose l.strand W.wst) (cs.map (chunkBlk W)), compose l.strand W.wst⟩
+
+/-- `chunk_relative_location` -/
+def okChunkLoc (t : TxSpec) (W : Win) (a : Option Location) : Bool := a == some (chunkLocOf (initOf t.E) W)
+def okChunkCdsLoc (t : TxSpec) (W : Win) (a : Option Location) : Bool :=
+  match t.D with
+  | none => a.isNone
+  | some d => a == some (chunkLocOf (initOf d) W)
+
+/-- a chunk interval handed to the library must be an interval of the chunk -/
+def chunkIntervalValid (W : Win) (s e : Int) : Bool :=
+  decide (0 ≤ s) && decide (s ≤ e) && decide (e ≤ ((W.w.2 - W.w.1 : Nat) : Int))
+
+/-- (in-chunk) transcript interval → chunk-relative location: the C01 interval clause on the chunk-relative location -/
+def okIvToChunk (l : Location) (rs re : Int) (rst : Strand) (a : Option Location) : Bool :=
+  if l == .empty then a.isNone else okRelint l rs re rst a
+/-- chunk interval → location relative to the in-chunk transcript -/
+def okChunkToIv (l : Location) (W : Win) (s e : Int) (st : Strand) (a : Option Location) : Bool :=
+  if l == .empty ∨ ¬ chunkIntervalValid W s e then a.isNone
+  else okLocRel (.single (s.toNat, e.toNat) st) l true a
+
+def okTI2CR (t : TxSpec) (W : Win) (rs re : Int) (rst : Strand) (a : Option Location) : Bool :=
+  okIvToChunk (chunkLocOf (initOf t.E) W) rs re rst a
+def okCRI2T (t : TxSpec) (W : Win) (s e : Int) (st : Strand) (a : Option Location) : Bool :=
+  okChunkToIv (chunkLocOf (initOf t.E) W) W s e st a
+def okDI2CR (t : TxSpec) (W : Win) (rs re : Int) (rst : Strand) (a : Option Location) : Bool :=
+  match t.D with
+  | none => a.isNone
+  | some d => okIvToChunk (chunkLocOf (initOf d) W) rs re rst a
+def okCRI2D (t : TxSpec) (W : Win) (s e : Int) (st : Strand) (a : Option Location) : Bool :=
+  match t.D with
+  | none => a.isNone
+  | some d => okChunkToIv (chunkLocOf (initOf d) W) W s e st a
+
+/-- UTRs of a chunk-built transcript ("the result is chunk-relative"): the UTR's bases that lie in the chunk, in
+    transcript order, in chunk coordinates; a location without bases (never an error) when there are none. -/
+def okKUtr (t : TxSpec) (W : Win) (five : Bool) (a : Option Location) : Bool :=
+  match t.D with
+  | none => a.isNone
+  | some d =>
+    if ¬ (txScope t && isSub d t.E && winOk W) then true
+    else match cdsOffset d t.E, a with
+      | some k, some u =>
+        let utr := if five then (bases t.E).take k else (bases t.E).drop (k + (bases d).length)
+        wfLocation u && (u == .empty || locationStrand? u == some (compose t.E.strand W.wst)) &&
+        locationBases u == (utr.filter (inWin W.w)).map (chunkOf W)
+      | _, _ => false
 
 end BioCantor.Spec
